@@ -29,7 +29,9 @@ def run(tier, seed, scale):
     phases.append(Phase("rel-outer", "c20", "rel", 6000 if q else 80000, procs=3 if q else 6, args=["--mode", "outer"]))
     phases.append(Phase("dbg-outer", "c20", "dbg", 1500 if q else 20000, procs=1 if q else 2, args=["--mode", "outer"]))
     phases.append(Phase("tsan-outer", "c20", "tsan", 600 if q else 8000, procs=2 if q else 4, args=["--mode", "outer"], timeout=1500))
-    phases.append(Phase("asan", "c20", "asan", 1500 if q else 30000, procs=2 if q else 6, timeout=1500))      # address+undefined: thread-based coroutines, creation/destruction of used coroutines
+    # (at most ~1000 cases per process: with the thread-based coroutines of sanitizer builds the process grows by ~2 MB per case under ASan -
+    # 5000 cases per process made six of them 8 GB each and the kernel's OOM killer ended one)
+    phases.append(Phase("asan", "c20", "asan", 1500 if q else 9000, procs=2 if q else 9, timeout=1500))      # address+undefined: thread-based coroutines, creation/destruction of used coroutines
     run_phases(chk, phases, seed, scale)
     s = chk.stats
     early, normal = s.get("resume_arrived_before_suspension_finished(early)", 0), s.get("resume_found_suspended(normal)", 0)
